@@ -42,6 +42,7 @@ Record snap := mkSnap { sn_max : N; sn_init : N; sn_conn : Z; sn_streams : list 
 Definition qsum_of (q : qframe) : qsum :=
   match q with
   | QData _ es d => (0, fsz q, es, [])
+  | QDataP _ es d _ => (0, fsz q, es, [])
   | QHdr _ es _ _ ch => (1, 0%Z, es, map len ch)
   | QPush _ _ _ ch => (2, 0%Z, false, map len ch)
   | QPrio _ _ => (3, 0%Z, false, [])
